@@ -48,63 +48,85 @@ func errorWrapDiscipline(c *eng.Ctx, rule string) {
 				continue
 			}
 			seen[f] = true
-			eng.Instrs(f, func(in ssa.Instruction) {
-				call, ok := in.(*ssa.Call)
-				if !ok || !eng.CalleeIs(&call.Call, "fmt", "Errorf") {
-					return
-				}
-				format, isC := eng.ConstString(call.Call.Args[0])
-				if !isC {
-					return
-				}
-				verbs := errorfVerbs(format)
-				pa := eng.Path{Blocks: []*ssa.BasicBlock{call.Block()}}
-				// operands in order: stores into the varargs array by index
-				var ops []ssa.Value
-				if sl, isSl := call.Call.Args[1].(*ssa.Slice); isSl {
-					if al, isAl := sl.X.(*ssa.Alloc); isAl {
-						byIdx := map[int64]ssa.Value{}
-						for _, r := range *al.Referrers() {
-							if ia, isIA := r.(*ssa.IndexAddr); isIA {
-								k, _ := eng.ConstInt(ia.Index)
-								for _, rr := range *ia.Referrers() {
-									if st, isSt := rr.(*ssa.Store); isSt {
-										byIdx[k] = st.Val
-									}
-								}
-							}
-						}
-						for i := int64(0); i < int64(len(byIdx)); i++ {
-							ops = append(ops, byIdx[i])
-						}
-					}
-				}
-				_ = pa
-				for i, op := range ops {
-					if op == nil {
-						continue
-					}
-					isErr := false
-					switch x := op.(type) {
-					case *ssa.ChangeInterface:
-						isErr = eng.IsErrorType(x.X.Type())
-					case *ssa.MakeInterface:
-						isErr = eng.IsErrorType(x.X.Type())
-					}
-					if !isErr {
-						continue
-					}
-					n++
-					verb := byte('?')
-					if i < len(verbs) {
-						verb = verbs[i]
-					}
-					c.Check(verb == 'w', rule, f, in.Pos(), "error operand of "+eng.CallStr(&call.Call), "errors on the request path are wrapped with %w (the 403/404/304 mapping and the clients test them with errors.Is)", "operand "+eng.ValStr(op)+" is formatted with %"+string(verb))
-				}
-			})
+			n += errorfWrapsIn(c, rule, f, "errors on the request path are wrapped with %w (the 403/404/304 mapping and the clients test them with errors.Is)")
 		}
 	}
 	if n == 0 {
 		c.Notes = append(c.Notes, rule+": no fmt.Errorf with an error operand on the request path")
+	}
+}
+
+// errorfWrapsIn checks every fmt.Errorf of f: an operand of error type is
+// formatted with %w.  It returns the number of such operands.
+func errorfWrapsIn(c *eng.Ctx, rule string, f *ssa.Function, want string) int {
+	n := 0
+	eng.Instrs(f, func(in ssa.Instruction) {
+		call, ok := in.(*ssa.Call)
+		if !ok || !eng.CalleeIs(&call.Call, "fmt", "Errorf") {
+			return
+		}
+		format, isC := eng.ConstString(call.Call.Args[0])
+		if !isC {
+			return
+		}
+		verbs := errorfVerbs(format)
+		pa := eng.Path{Blocks: []*ssa.BasicBlock{call.Block()}}
+		// operands in order: stores into the varargs array by index
+		var ops []ssa.Value
+		if sl, isSl := call.Call.Args[1].(*ssa.Slice); isSl {
+			if al, isAl := sl.X.(*ssa.Alloc); isAl {
+				byIdx := map[int64]ssa.Value{}
+				for _, r := range *al.Referrers() {
+					if ia, isIA := r.(*ssa.IndexAddr); isIA {
+						k, _ := eng.ConstInt(ia.Index)
+						for _, rr := range *ia.Referrers() {
+							if st, isSt := rr.(*ssa.Store); isSt {
+								byIdx[k] = st.Val
+							}
+						}
+					}
+				}
+				for i := int64(0); i < int64(len(byIdx)); i++ {
+					ops = append(ops, byIdx[i])
+				}
+			}
+		}
+		_ = pa
+		for i, op := range ops {
+			if op == nil {
+				continue
+			}
+			isErr := false
+			switch x := op.(type) {
+			case *ssa.ChangeInterface:
+				isErr = eng.IsErrorType(x.X.Type())
+			case *ssa.MakeInterface:
+				isErr = eng.IsErrorType(x.X.Type())
+			}
+			if !isErr {
+				continue
+			}
+			n++
+			verb := byte('?')
+			if i < len(verbs) {
+				verb = verbs[i]
+			}
+			c.Check(verb == 'w', rule, f, in.Pos(), "error operand of "+eng.CallStr(&call.Call), want, "operand "+eng.ValStr(op)+" is formatted with %"+string(verb))
+		}
+	})
+	return n
+}
+
+// clientWrapDiscipline: the same in the client library, where the retry logic
+// of lookups and the sentinel tests of callers use errors.Is on what the
+// transport and the store hand up (a context error flattened with %v is no
+// longer recognised as one).
+func clientWrapDiscipline(c *eng.Ctx, rule string) {
+	n := 0
+	for _, f := range c.P.PkgFuncs(setecPkg) {
+		n += errorfWrapsIn(c, rule, f, "errors passed up by the client library are wrapped with %w (lookups decide whether to retry with errors.Is(err, context.Canceled / DeadlineExceeded); callers test the api sentinels)")
+	}
+	if n == 0 {
+		c.Notes = append(c.Notes, rule+": no fmt.Errorf with an error operand in the client library")
 	}
 }
